@@ -168,10 +168,12 @@ fn payload(seq: usize) -> Vec<u8> {
     serde_amqp::to_vec(&Serializable(m)).expect("encode message")
 }
 
-pub async fn scenario_b(rcv: Rcv, events: Vec<EvB>) -> ObsB {
+/// `base`: delivery-id of the first delivery the scripted sender transfers (ids are serial numbers; with a base
+/// next to 2^32 the ids of the N deliveries wrap)
+pub async fn scenario_b(base: u32, rcv: Rcv, events: Vec<EvB>) -> ObsB {
     let mut obs = ObsB::default();
     let mut auto = Auto::default();
-    auto.next_outgoing_id = BASE_ID;
+    auto.next_outgoing_id = base;
     auto.rcv_settle_mode = Some(rcv.mode());
     let mut c = match scen::open_client(auto, 512).await {
         Ok(c) => c,
@@ -205,8 +207,8 @@ pub async fn scenario_b(rcv: Rcv, events: Vec<EvB>) -> ObsB {
     let mut dls: Vec<RDl> = vec![];
     let mut deliveries: Vec<Delivery<Value>> = vec![];
     for k in 0..N {
-        let id = c.peer.sessions.get(&link.lib_channel).map(|s| s.next_outgoing_id).unwrap_or(BASE_ID + k as u32);
-        if id != BASE_ID + k as u32 {
+        let id = c.peer.sessions.get(&link.lib_channel).map(|s| s.next_outgoing_id).unwrap_or(base.wrapping_add(k as u32));
+        if id != base.wrapping_add(k as u32) {
             obs.machinery = Some(format!("scripted sender's delivery-id bookkeeping: {id} for delivery {k}"));
             return obs;
         }
@@ -230,7 +232,7 @@ pub async fn scenario_b(rcv: Rcv, events: Vec<EvB>) -> ObsB {
     for k in 0..N {
         match drive(&mut c.peer, rx.recv::<Value>(), SHORT).await {
             Some(Ok(dv)) => {
-                if *dv.delivery_id() != BASE_ID + k as u32 {
+                if *dv.delivery_id() != base.wrapping_add(k as u32) {
                     obs.machinery = Some(format!("recv #{k} returned delivery-id {}", dv.delivery_id()));
                     return obs;
                 }
@@ -340,8 +342,8 @@ pub async fn scenario_b(rcv: Rcv, events: Vec<EvB>) -> ObsB {
                 };
                 let disp = Disposition {
                     role: Role::Sender,
-                    first: BASE_ID + *a as u32,
-                    last: if a == b { None } else { Some(BASE_ID + *b as u32) },
+                    first: base.wrapping_add(*a as u32),
+                    last: if a == b { None } else { Some(base.wrapping_add(*b as u32)) },
                     settled: true,
                     state: echo_state,
                     batchable: false,
@@ -370,8 +372,10 @@ pub async fn scenario_b(rcv: Rcv, events: Vec<EvB>) -> ObsB {
                 continue;
             }
             let (f, l) = (dp.first, dp.last.unwrap_or(dp.first));
-            let ks: Vec<usize> = (0..N).filter(|k| (f..=l).contains(&(BASE_ID + *k as u32))).collect();
-            if ks.is_empty() || f < BASE_ID || l >= BASE_ID + N as u32 {
+            // (relative to the first delivery: serial-number arithmetic)
+            let (rf, rl) = (f.wrapping_sub(base), l.wrapping_sub(base));
+            let ks: Vec<usize> = (0..N).filter(|k| (rf..=rl).contains(&(*k as u32))).collect();
+            if ks.is_empty() || rf > rl || rl >= N as u32 {
                 obs.fails.push(("receiver-disposition-covers-other-delivery".into(), format!("after {}: {} covers delivery-ids outside the application's call", ev.name(), w.short()), step));
             }
             match &want_state {
@@ -408,7 +412,7 @@ pub async fn scenario_b(rcv: Rcv, events: Vec<EvB>) -> ObsB {
             if !missing.is_empty() {
                 obs.fails.push((
                     "receiver-disposition-missing".into(),
-                    format!("after {}: no disposition on the wire for deliveries {:?} (ids {:?}); dispositions of this step cover {:?}", ev.name(), missing, missing.iter().map(|k| BASE_ID + *k as u32).collect::<Vec<_>>(), covered_now),
+                    format!("after {}: no disposition on the wire for deliveries {:?} (ids {:?}); dispositions of this step cover {:?}", ev.name(), missing, missing.iter().map(|k| base.wrapping_add(*k as u32)).collect::<Vec<_>>(), covered_now),
                     step,
                 ));
             }
@@ -467,7 +471,7 @@ pub async fn scenario_b(rcv: Rcv, events: Vec<EvB>) -> ObsB {
                                     if dl.disposed_again_after_settlement { "receiver-retains-settled-delivery[after-repeated-dispose]".to_string() } else { "receiver-retains-settled-delivery".to_string() },
                                     format!(
                                         "delivery {k} (id {}) is settled ({}) but the receiver's attach after a non-closing detach + resume still lists it in `unsettled`",
-                                        BASE_ID + k as u32,
+                                        base.wrapping_add(k as u32),
                                         if rcv == Rcv::First { "by the receiver's own settled disposition" } else { "by the sender's settling disposition" }
                                     ),
                                     n,
@@ -478,7 +482,7 @@ pub async fn scenario_b(rcv: Rcv, events: Vec<EvB>) -> ObsB {
                                     format!("receiver-drops-unsettled-delivery[{}]", if dl.disposed.is_some() { "outcome-sent-awaiting-sender" } else { "no-outcome-yet" }),
                                     format!(
                                         "delivery {k} (id {}) is not settled ({}) but the receiver's attach after a non-closing detach + resume does not list it in `unsettled`",
-                                        BASE_ID + k as u32,
+                                        base.wrapping_add(k as u32),
                                         if dl.disposed.is_some() { "rcv-settle-mode second: outcome sent, the sender's settling disposition has not arrived" } else { "the application has not applied an outcome" }
                                     ),
                                     n,
@@ -506,12 +510,12 @@ fn key(dls: &[RDl]) -> Vec<(Option<String>, bool, bool)> {
     dls.iter().map(|d| (d.disposed.clone(), d.on_wire, d.settled)).collect()
 }
 
-fn run_history_b(rcv: Rcv, evs: Vec<EvB>) -> (HistOut, ObsB) {
+fn run_history_b(base: u32, rcv: Rcv, evs: Vec<EvB>) -> (HistOut, ObsB) {
     let scen: Scenario<ObsB> = {
         let evs = evs.clone();
         Arc::new(move || {
             let evs = evs.clone();
-            Box::pin(scenario_b(rcv, evs))
+            Box::pin(scenario_b(base, rcv, evs))
         })
     };
     let ex = run_exec(vec![], &RunCfg::none(), &scen);
@@ -532,7 +536,12 @@ fn run_history_b(rcv: Rcv, evs: Vec<EvB>) -> (HistOut, ObsB) {
     if ex.spun {
         out.machinery = Some(format!("C02/B busy loop detected ({rcv:?},{names:?})"));
     }
-    if !ex.panics.is_empty() && out.machinery.is_none() {
+    // a panic inside the library while the peer and the application stay within the quantifier: the engine that
+    // died cannot send the dispositions or keep the unsettled state the statement asks for
+    if let Some((sig, msg)) = vlib::util::library_panic(&ex.panics) {
+        o.fails.push((sig, format!("a library task panicked: {msg}"), o.executed));
+        out.machinery = None;
+    } else if !ex.panics.is_empty() && out.machinery.is_none() {
         out.machinery = Some(format!("C02/B panic in a task ({rcv:?},{names:?}): {:?}", ex.panics));
     }
     (out, o)
@@ -545,10 +554,19 @@ pub fn part_b(ctx: &Ctx, deadline: Instant, out: &mut Outcome, tot: &mut Totals)
     let cnt_range = AtomicU64::new(0);
     let cnt_final = AtomicU64::new(0);
     let cnt_entries = AtomicU64::new(0);
+    // (first delivery-id, depth): BASE_ID, and - up to one level below the maximum - a base with which the ids cross 2^32
+    const WRAP_BASE: u32 = u32::MAX - 2;
+    let mut levels: Vec<(u32, usize)> = vec![];
     for depth in 1..=max_depth {
+        levels.push((BASE_ID, depth));
+        if depth < max_depth && depth <= 3 {
+            levels.push((WRAP_BASE, depth));
+        }
+    }
+    for (base, depth) in levels {
         for rcv in [Rcv::First, Rcv::Second] {
             let alpha = if depth >= 5 { core_alphabet_b(rcv) } else { alphabet_b(rcv) };
-            let label = format!("B:{rcv:?} depth {depth} over {} events", alpha.len());
+            let label = format!("B:{rcv:?} depth {depth} over {} events{}", alpha.len(), if base != BASE_ID { " (ids cross 2^32)" } else { "" });
             if Instant::now() > deadline {
                 tot.truncated = true;
                 tot.cut.push(label);
@@ -556,7 +574,7 @@ pub fn part_b(ctx: &Ctx, deadline: Instant, out: &mut Outcome, tot: &mut Totals)
             }
             let st = search(alpha.len(), depth, ctx.threads, deadline, |h| {
                 let evs: Vec<EvB> = h.iter().map(|i| alpha[*i].clone()).collect();
-                let (mut ho, o) = run_history_b(rcv, evs.clone());
+                let (mut ho, o) = run_history_b(base, rcv, evs.clone());
                 cnt_disp.fetch_add(o.dispositions_seen as u64, Ordering::Relaxed);
                 cnt_range.fetch_add(o.range_dispositions_seen as u64, Ordering::Relaxed);
                 cnt_final.fetch_add(o.final_checked as u64, Ordering::Relaxed);
@@ -566,7 +584,7 @@ pub fn part_b(ctx: &Ctx, deadline: Instant, out: &mut Outcome, tot: &mut Totals)
                     for (sig, detail, step) in &o.fails {
                         let pre: Vec<EvB> = evs[..(*step).min(evs.len())].to_vec();
                         let names: Vec<String> = pre.iter().map(|e| e.name()).collect();
-                        c.add(sig, names.clone(), json!({"part": "B", "rcv": rcv, "events": pre, "event_names": names}), format!("rcv-settle-mode {rcv:?}: {detail}"), o.trace.clone());
+                        c.add(sig, names.clone(), json!({"part": "B", "base": base, "rcv": rcv, "events": pre, "event_names": names}), format!("rcv-settle-mode {rcv:?}{}: {detail}", if base != BASE_ID { format!(", first delivery-id {base}") } else { String::new() }), o.trace.clone());
                     }
                 }
                 ho.fails.clear();
@@ -602,7 +620,8 @@ pub fn replay_b(r: &serde_json::Value, out: &mut Outcome) {
     let rcv: Rcv = serde_json::from_value(r["rcv"].clone()).unwrap_or(Rcv::First);
     let evs: Vec<EvB> = serde_json::from_value(r["events"].clone()).unwrap_or_default();
     println!("replaying part B: rcv {rcv:?} {:?}", evs.iter().map(|e| e.name()).collect::<Vec<_>>());
-    let (ho, o) = run_history_b(rcv, evs);
+    let base = r["base"].as_u64().map(|b| b as u32).unwrap_or(BASE_ID);
+    let (ho, o) = run_history_b(base, rcv, evs);
     for l in &ho.trace {
         println!("  {l}");
     }
